@@ -50,8 +50,10 @@ func init() {
 				switch op {
 				case 0:
 					g.do("addheaders " + t + " []")
+					rt.hdrCur = 0
 				case 1:
 					g.do("addheaders " + t + " " + a + "," + b)
+					rt.hdrCur = 2
 					if rt.hdrMax < 2 {
 						rt.hdrMax = 2
 					}
